@@ -135,6 +135,15 @@ def cmChanged (h : HSt) (ra rb : Rule) : Bool :=
   | some na, some nb => h.cur (Kind.certmap, nb) != na
   | _, _ => false
 
+/-- the index the re-sent rule is printed with: the device's rule index; after a change of the certificate map the index of the
+target's map (`b.seq` of its first entry) -/
+def ruleSeq (h : HSt) (cmCh : Bool) (ra rb : Rule) : String :=
+  if cmCh then
+    match rb.cm.bind fun nb => h.bObj (Kind.certmap, nb) with
+    | some o => (o.secs.headD { head := ra.seq }).head
+    | none => ra.seq
+  else ra.seq
+
 /-- `makeEqual` for two rules with the same key -/
 def equalRule (h : HSt) (web : Bool) (ia : Nat) (ra rb : Rule) : Option HSt :=
   let h := if web then h else { h with tNeeded := ia :: h.tNeeded }
@@ -147,11 +156,11 @@ def equalRule (h : HSt) (web : Bool) (ia : Nat) (ra rb : Rule) : Option HSt :=
       if web then
         let h := q.1.setWeb
         let h := if cmCh then h.emitH (.cgm true ra) else h
-        h.emitH (.cgm false (h.printRule rb ra.seq))
+        h.emitH (.cgm false (h.printRule rb (ruleSeq h cmCh ra rb)))
       else
         let h : HSt := { q.1 with mode := none }
         let h := if cmCh then h.emitH (.tgmap true ra) else h
-        h.emitH (.tgmap false (h.printRule rb ra.seq))
+        h.emitH (.tgmap false (h.printRule rb (ruleSeq h cmCh ra rb)))
     else q.1
 
 def withIdx {α : Type} (l : List α) : List (Nat × α) := (List.range l.length).zip l
